@@ -95,7 +95,7 @@ func init() {
 				W:       weights(Weights{"commit": 16, "reset": 14, "switch": 3, "switch-c": 2, "rmdir": 4, "rmfile": 5, "junk": 0}),
 				Oracles: []HistOracle{orC08}, PreReset: true}
 		})
-	checks["C09"] = histCheck("C09", []string{"C06.isDir_iff", "C06.mem_byDir", "C06.getEntry_correct", "C04.update_membership", "C04.delete_exact"}, histRule,
+	checks["C09"] = histCheck("C09", []string{"C09.restore_only_tracked", "C09.restore_named", "C09.restore_unknown_refused", "C06.isDir_iff", "C06.mem_byDir", "C06.getEntry_correct", "C04.update_membership", "C04.delete_exact"}, histRule,
 		func(ctx *Ctx) *HistCfg {
 			return &HistCfg{Prop: "C09", Cases: tierN(ctx, 200, 2000), MinSteps: 10, MaxSteps: 35,
 				W:       weights(Weights{"restore": 20, "commit": 8, "rmfile": 8, "rmdir": 5, "write": 16, "add": 14, "rm": 4, "junk": 0}),
@@ -108,7 +108,7 @@ func init() {
 					"rev-parse": 6, "commit": 8, "reset": 2, "write": 8, "add": 6, "restore": 0, "rm": 1, "junk": 1}),
 				Oracles: []HistOracle{orC10}}
 		})
-	checks["C13"] = histCheck("C13", []string{"C01.encode_injective", "C06.getEntry_correct", "C17.nothing_hidden_without_ignore"}, histRule,
+	checks["C13"] = histCheck("C13", []string{"C13.status_ok", "C13.modified_iff", "C13.same_bytes_not_modified", "C13.deleted_iff", "C13.untracked_iff", "C01.encode_injective", "C06.getEntry_correct", "C17.nothing_hidden_without_ignore"}, histRule,
 		func(ctx *Ctx) *HistCfg {
 			return &HistCfg{Prop: "C13", Cases: tierN(ctx, 200, 2000), MinSteps: 8, MaxSteps: 30,
 				W:       weights(Weights{"status": 18, "write": 18, "rewrite-same": 6, "touch": 4, "rmfile": 8, "rmdir": 4, "mkdir": 2, "ignore": 3, "commit": 8, "add": 12, "junk": 0}),
